@@ -4,7 +4,8 @@
 # Exit: 0 held / 1 violation (VIOLATION line printed) / 2 infrastructure problem (inconclusive)
 set -u
 HERE="$(cd "$(dirname "$0")" && pwd)"
-export VERIF_ROOT="$HERE"
+# VERIF_ROOT_OVERRIDE: evidence/replays/known-findings root for sensitivity runs (tools/mutant.sh)
+export VERIF_ROOT="${VERIF_ROOT_OVERRIDE:-$HERE}"
 export CARGO_NET_OFFLINE=true
 cd "$HERE/harness" || exit 2
 
